@@ -23,6 +23,8 @@ type Mutex struct {
 }
 
 // SimLabel describes the mutex in stuck-task reports.
+//
+//go:norace
 func (m *Mutex) SimLabel() string {
 	if o := m.owner; o != nil && m.held.Load() != 0 {
 		return "mutex held by " + o.String()
@@ -30,9 +32,12 @@ func (m *Mutex) SimLabel() string {
 	return "mutex"
 }
 
+//go:norace
 func (m *Mutex) free(time.Time) (bool, time.Time) { return m.held.Load() == 0, time.Time{} }
 
 // Lock locks m.
+//
+//go:norace
 func (m *Mutex) Lock() {
 	t := simrt.PointT(simrt.KLock, m, m.free)
 	if t == nil {
@@ -46,6 +51,8 @@ func (m *Mutex) Lock() {
 }
 
 // TryLock tries to lock m.
+//
+//go:norace
 func (m *Mutex) TryLock() bool {
 	if !simrt.Point(simrt.KLock, m, nil) {
 		if m.real.TryLock() {
@@ -63,6 +70,8 @@ func (m *Mutex) TryLock() bool {
 }
 
 // Unlock unlocks m.
+//
+//go:norace
 func (m *Mutex) Unlock() {
 	if !simrt.Point(simrt.KUnlock, m, nil) {
 		m.held.Store(0)
@@ -86,9 +95,13 @@ type RWMutex struct {
 }
 
 // SimLabel describes the mutex in stuck-task reports.
+//
+//go:norace
 func (m *RWMutex) SimLabel() string { return "rwmutex" }
 
 // Lock locks for writing.
+//
+//go:norace
 func (m *RWMutex) Lock() {
 	if simrt.Active() == nil {
 		m.real.Lock()
@@ -102,9 +115,12 @@ func (m *RWMutex) Lock() {
 	m.pendingW.Add(-1)
 	m.writer.Store(1)
 	simrt.RaceAcquire(unsafe.Pointer(m))
+	simrt.RaceAcquire(unsafe.Pointer(&m.readers))
 }
 
 // Unlock unlocks writing.
+//
+//go:norace
 func (m *RWMutex) Unlock() {
 	if !simrt.Point(simrt.KUnlock, m, nil) {
 		m.writer.Store(0)
@@ -119,6 +135,8 @@ func (m *RWMutex) Unlock() {
 }
 
 // RLock locks for reading.
+//
+//go:norace
 func (m *RWMutex) RLock() {
 	if simrt.Active() == nil {
 		m.real.RLock()
@@ -133,6 +151,8 @@ func (m *RWMutex) RLock() {
 }
 
 // RUnlock unlocks reading.
+//
+//go:norace
 func (m *RWMutex) RUnlock() {
 	if !simrt.Point(simrt.KRUnlock, m, nil) {
 		m.readers.Add(-1)
@@ -147,11 +167,16 @@ func (m *RWMutex) RUnlock() {
 }
 
 // RLocker returns a Locker for the read side.
+//
+//go:norace
 func (m *RWMutex) RLocker() Locker { return (*rlocker)(m) }
 
 type rlocker RWMutex
 
-func (r *rlocker) Lock()   { (*RWMutex)(r).RLock() }
+//go:norace
+func (r *rlocker) Lock() { (*RWMutex)(r).RLock() }
+
+//go:norace
 func (r *rlocker) Unlock() { (*RWMutex)(r).RUnlock() }
 
 // WaitGroup replaces sync.WaitGroup.
@@ -160,13 +185,23 @@ type WaitGroup struct {
 	waiters atomic.Int32
 	mu      sync.Mutex
 	cond    *sync.Cond
+	sema    uint32 // never accessed: the address carries the misuse model of the race detector
 }
 
 // SimLabel describes the wait group in stuck-task reports.
+//
+//go:norace
 func (wg *WaitGroup) SimLabel() string { return "waitgroup" }
 
-// Add adds delta to the counter.
-func (wg *WaitGroup) Add(delta int) {
+// Add adds delta to the counter.  Add, Done and Wait are thin instrumented wrappers (they touch no memory
+// themselves) around //go:norace bodies: an instrumented callee is what records the caller's call site in
+// the race detector's shadow stack, so reports of the misuse model name the function that called Add/Wait.
+//
+//go:noinline
+func (wg *WaitGroup) Add(delta int) { wg.add(delta) }
+
+//go:norace
+func (wg *WaitGroup) add(delta int) {
 	if !simrt.Point(simrt.KWgAdd, wg, nil) {
 		wg.mu.Lock()
 		v := wg.n.Add(int64(delta))
@@ -180,10 +215,6 @@ func (wg *WaitGroup) Add(delta int) {
 		wg.mu.Unlock()
 		return
 	}
-	if delta > 0 && wg.n.Load() == 0 && wg.waiters.Load() > 0 {
-		// the documented misuse: Add from zero concurrent with Wait
-		simrt.RaceWrite(unsafe.Pointer(&wg.waiters))
-	}
 	if delta < 0 {
 		simrt.RaceReleaseMerge(unsafe.Pointer(wg))
 	}
@@ -191,13 +222,33 @@ func (wg *WaitGroup) Add(delta int) {
 	if v < 0 {
 		panic("sync: negative WaitGroup counter")
 	}
+	if delta > 0 && v == int64(delta) {
+		// as in the real WaitGroup under -race: the first increment must be synchronised with Wait
+		wgAddFromZero(unsafe.Pointer(&wg.sema))
+	}
 }
 
+// wgAddFromZero and wgFirstWait are deliberately NOT //go:norace: their frames mark a race report as the
+// WaitGroup-misuse model ("Add from zero must happen before Wait") rather than a data race on memory.
+//
+//go:noinline
+func wgAddFromZero(p unsafe.Pointer) { simrt.RaceRead(p) }
+
+//go:noinline
+func wgFirstWait(p unsafe.Pointer) { simrt.RaceWrite(p) }
+
 // Done decrements the counter.
-func (wg *WaitGroup) Done() { wg.Add(-1) }
+//
+//go:noinline
+func (wg *WaitGroup) Done() { wg.add(-1) }
 
 // Wait blocks until the counter is zero.
-func (wg *WaitGroup) Wait() {
+//
+//go:noinline
+func (wg *WaitGroup) Wait() { wg.wait() }
+
+//go:norace
+func (wg *WaitGroup) wait() {
 	if simrt.Active() == nil {
 		wg.mu.Lock()
 		if wg.cond == nil {
@@ -209,10 +260,11 @@ func (wg *WaitGroup) Wait() {
 		wg.mu.Unlock()
 		return
 	}
-	wg.waiters.Add(1)
-	if wg.n.Load() != 0 {
-		simrt.RaceRead(unsafe.Pointer(&wg.waiters))
+	if wg.n.Load() != 0 && wg.waiters.Load() == 0 {
+		// as in the real WaitGroup under -race: a Wait that has to wait is modelled as a write (first waiter only)
+		wgFirstWait(unsafe.Pointer(&wg.sema))
 	}
+	wg.waiters.Add(1)
 	simrt.Point(simrt.KWgWait, wg, func(time.Time) (bool, time.Time) { return wg.n.Load() == 0, time.Time{} })
 	wg.waiters.Add(-1)
 	simrt.RaceAcquire(unsafe.Pointer(wg))
@@ -226,6 +278,8 @@ type Once struct {
 }
 
 // Do calls f once.
+//
+//go:norace
 func (o *Once) Do(f func()) {
 	if simrt.Active() == nil {
 		o.real.Do(func() {
@@ -258,6 +312,8 @@ type Pool struct {
 }
 
 // Get takes an object from the pool.
+//
+//go:norace
 func (p *Pool) Get() any {
 	simrt.Point(simrt.KPoolGet, p, nil)
 	if x, ok := p.st.Get(); ok {
@@ -271,6 +327,8 @@ func (p *Pool) Get() any {
 }
 
 // Put returns an object to the pool.
+//
+//go:norace
 func (p *Pool) Put(x any) {
 	if x == nil {
 		return
@@ -287,4 +345,6 @@ type Map = sync.Map
 type Cond = sync.Cond
 
 // NewCond is sync.NewCond.
+//
+//go:norace
 func NewCond(l Locker) *Cond { return sync.NewCond(l) }
